@@ -108,6 +108,21 @@ theorem wfJob_of_sameSpec {a b : JobV} (h : sameSpec a b) (hw : wfJob a) : wfJob
   unfold wfJob at *
   rw [← h1, ← h2, ← h5, ← h7]; exact hw
 
+theorem sameFixed_refl (a : JobV) : sameFixed a a := by simp [sameFixed]
+
+theorem sameFixed_symm {a b : JobV} (h : sameFixed a b) : sameFixed b a := by
+  obtain ⟨h1, h2, h3, h4, h5, h6⟩ := h
+  exact ⟨h1.symm, h2.symm, h3.symm, h4.symm, h5.symm, h6.symm⟩
+
+theorem sameFixed_trans {a b c : JobV} (h : sameFixed a b) (h' : sameFixed b c) : sameFixed a c := by
+  obtain ⟨h1, h2, h3, h4, h5, h6⟩ := h
+  obtain ⟨g1, g2, g3, g4, g5, g6⟩ := h'
+  exact ⟨h1.trans g1, h2.trans g2, h3.trans g3, h4.trans g4, h5.trans g5, h6.trans g6⟩
+
+theorem sameSpec.fixed {a b : JobV} (h : sameSpec a b) : sameFixed a b := by
+  obtain ⟨h1, h2, h3, h4, h5, h6, _⟩ := h
+  exact ⟨h1, h2, h3, h4, h5, h6⟩
+
 /-! ### immediate consequences of the invariant -/
 
 /-- `counter_upper` on the invariant -/
@@ -173,9 +188,9 @@ theorem Inv.ind_of_sub {s : Sys} (h : Inv s) {keys : List String}
 
 /-! ### an authoritative update `cur → nj` (finish, start write, reject write) -/
 
-theorem Inv_update {s s' : Sys} (h : Inv s) {cur nj : JobV}
+theorem Inv_update' {s s' : Sys} (h : Inv s) {cur nj : JobV}
     (hcur : findJob s.jobs nj.name = some cur)
-    (hspec : sameSpec cur nj) (hrv : nj.rv = s.rv + 1)
+    (hspec : sameFixed cur nj) (hwf : wfJob nj) (hrv : nj.rv = s.rv + 1)
     (hterm : cur.terminal = true → nj.terminal = true)
     (e_rv : s'.rv = s.rv + 1) (e_jobs : s'.jobs = setJob s.jobs nj)
     (e_evs : s'.jobEvs = s.jobEvs ++ [.update nj])
@@ -206,9 +221,9 @@ theorem Inv_update {s s' : Sys} (h : Inv s) {cur nj : JobV}
     unfold pending
     rw [e_sq, e_cache, e_evs, futureNotes_append, h.pipe, hnote]
     simp
-  have hspecnj : ∀ j, Ver s j → j.name = nj.name → sameSpec j nj := by
+  have hspecnj : ∀ j, Ver s j → j.name = nj.name → sameFixed j nj := by
     intro j hj hn
-    exact sameSpec_trans (h.verFn j cur hj hvcur (hn.trans hcurname.symm)).1 hspec
+    exact sameFixed_trans (h.verFn j cur hj hvcur (hn.trans hcurname.symm)).1 hspec
   refine ⟨?_, ?_, ?_, ?_, ?_, ?_, ?_, ?_, ?_, ?_⟩
   · rw [e_jobs]; exact nodup_names_setJob h.jobsNodup
   · rw [e_cache]; exact h.cacheNodup
@@ -228,7 +243,7 @@ theorem Inv_update {s s' : Sys} (h : Inv s) {cur nj : JobV}
   · intro j hj
     rcases hver j hj with hj | rfl
     · exact h.verWf j hj
-    · exact wfJob_of_sameSpec hspec (h.verWf cur hvcur)
+    · exact hwf
   · intro j hj
     rw [e_rv]
     rcases hver j hj with hj | rfl
@@ -239,15 +254,31 @@ theorem Inv_update {s s' : Sys} (h : Inv s) {cur nj : JobV}
     · exact h.verFn j1 j2 h1 h2 hn
     · refine ⟨hspecnj j1 h1 hn, fun hr => ?_⟩
       have := h.verRv j1 h1; omega
-    · refine ⟨sameSpec_symm (hspecnj j2 h2 hn.symm), fun hr => ?_⟩
+    · refine ⟨sameFixed_symm (hspecnj j2 h2 hn.symm), fun hr => ?_⟩
       have := h.verRv j2 h2; omega
-    · exact ⟨sameSpec_refl _, fun _ => rfl⟩
+    · exact ⟨sameFixed_refl _, fun _ => rfl⟩
   · intro k hk j hj hn
     rw [e_ind] at hk
     rcases hver j hj with hj | rfl
     · exact h.ind k hk j hj hn
     · rw [← hspec.1]; exact h.ind k hk cur hvcur (hcurname.trans hn)
   · intro f hf; exact h.faultsOk f (e_faults f hf)
+
+/-- the same for a write that leaves the whole spec (incl. `startAfter`) unchanged: finish, start
+write, reject write -/
+theorem Inv_update {s s' : Sys} (h : Inv s) {cur nj : JobV}
+    (hcur : findJob s.jobs nj.name = some cur)
+    (hspec : sameSpec cur nj) (hrv : nj.rv = s.rv + 1)
+    (hterm : cur.terminal = true → nj.terminal = true)
+    (e_rv : s'.rv = s.rv + 1) (e_jobs : s'.jobs = setJob s.jobs nj)
+    (e_evs : s'.jobEvs = s.jobEvs ++ [.update nj])
+    (e_cache : s'.jobCache = s.jobCache) (e_sq : s'.storeQ = s.storeQ) (e_cq : s'.ctrlQ = s.ctrlQ)
+    (e_ctr : ∀ uid, getCtr s'.counter uid
+        = getCtr s.counter uid + (if cur.label = some uid then bonus cur nj else 0))
+    (e_ind : s'.indQ = s.indQ) (e_faults : ∀ f ∈ s'.faults, f ∈ s.faults) : Inv s' :=
+  Inv_update' h hcur hspec.fixed
+    (wfJob_of_sameSpec hspec (h.verWf cur (Or.inl (findJob_some_mem hcur)))) hrv hterm
+    e_rv e_jobs e_evs e_cache e_sq e_cq e_ctr e_ind e_faults
 
 /-! ### creation of a fresh Job -/
 
@@ -316,7 +347,7 @@ theorem Inv_add {s s' : Sys} (h : Inv s) {nj : JobV}
     · exact h.verFn j1 j2 h1 h2 hn
     · exact absurd hn (hfresh.1 j1 h1)
     · exact absurd hn.symm (hfresh.1 j2 h2)
-    · exact ⟨sameSpec_refl _, fun _ => rfl⟩
+    · exact ⟨sameFixed_refl _, fun _ => rfl⟩
   · intro k hk j hj hn
     rw [e_ind] at hk
     rcases hver j hj with hj | rfl
